@@ -192,6 +192,9 @@ macro_rules
   | `(tactic| key_split $k [$a, $as,*] => $t:tactic) =>
     `(tactic| (by_cases hk : $a = $k; (subst hk; $t:tactic); (key_split $k [$as,*] => $t:tactic)))
 
+/-- `ChildSchema.handle_compatibility` as translated has the outcome of the model's `childPreLoad` on every JSON value:
+the same exception class on whatever is no dict, and on a dict the same dict (`SameDict`: the renamed keys may have been
+appended in another order, which `loadRecord_congr` shows nothing reads — so two independent `if` blocks may be swapped). -/
 theorem ChildSchema_pre_load_eq (j : Json) : SameRes (LN.run GenNodeSchema.ChildSchema_pre_load j) (childPreLoad j) := by
   cases j with
   | obj kvs =>
@@ -222,6 +225,8 @@ theorem nullToEmpty_eq (k : Str) (kvs : List (Str × Json)) :
   | none => simp
   | some v => cases v <;> simp [Json.isNull]
 
+/-- `NodeSchema.handle_compatibility` as translated (`sensor_id` → `node_id`; `type` → `node_type` with `None` → 18;
+`sketch_name` / `sketch_version` `None` → `""`) has the outcome of the model's `nodePreLoad` on every JSON value. -/
 theorem NodeSchema_pre_load_eq (j : Json) : SameRes (LN.run GenNodeSchema.NodeSchema_pre_load j) (nodePreLoad j) := by
   cases j with
   | obj kvs =>
